@@ -186,6 +186,23 @@ func c11monitor(cw *caseWriter) func(tag string, in, obs []uint64) {
 					continue
 				}
 				next = parseState(o[skipTrace(o, 1+nresp):])
+				if e.kind == 4 && !e.short && len(o) > 2 && o[2] == 1 && next != nil {
+					// an InstallSnapshot answered success: the snapshot now stored carries the index and the term of the history's entry at
+					// that index - the request's LastLogIndex / LastLogTerm - whatever term the sender is in
+					found, other := false, uint64(0)
+					for _, x := range next.snaps {
+						if x[0] == e.li && x[1] == e.lt {
+							found = true
+						} else if x[0] == e.li {
+							other = x[1]
+						}
+					}
+					if !found && other != 0 {
+						for _, p := range []string{"C11", "C10", "C02"} {
+							cw.monitor(p, tag, "installed-snapshot-records-another-term-than-the-history", "event %d: InstallSnapshot (last index %d, last term %d, sender's term %d) stored a snapshot at %d with term %d", i, e.li, e.lt, e.term, e.li, other)
+						}
+					}
+				}
 			case len(o) > 0 && (o[0] == 20 || o[0] == 30):
 				next = parseState(stateOfBoot(o[1:]))
 			case len(o) > 0 && o[0] == 1:
